@@ -35,6 +35,13 @@ def resolve_type(world, name, pkg):
     for c in cands:
         if c in types:
             return c
+    if '.' in base and not base.startswith('map['):
+        # short import path: bitset.BitSet -> github.com/fredericlemoine/bitset.BitSet
+        hits = [k for k in types if k.endswith('/' + base) and types[k]['kind'] == 'named']
+        if len(hits) == 1:
+            cands = [pre + hits[0]]
+            if cands[0] in types:
+                return cands[0]
     # synthesize pointer / slice types of known bases
     for c in cands:
         m2 = re.match(r'^((?:\*|\[\])*)(.+)$', c)
